@@ -4,7 +4,7 @@ workloads + (where a model prediction exists) kernel-evaluated comparison with t
 import collections, json, os, re
 from . import common as C
 
-FAMILIES = {"C14": ["hub", "errors"], "C01": ["conc", "closures"], "C02": ["nest", "closures"], "C09": ["values"], "C10": ["errors"], "C11": ["closures"],
+FAMILIES = {"C14": ["hub", "errors"], "C01": ["conc", "closures"], "C02": ["nest", "closures"], "C09": ["values"], "C10": ["errors"], "C11": ["closures", "hub"],
             "C13": ["hub", "relay", "nestedlink"], "C17": ["wire"]}
 
 
@@ -627,7 +627,7 @@ def check(res, tier, seed):
                           dict(kind="sys", output=out[-3000:], last=recs[-1] if recs else None))
         mon = MONITORS[pid]
         for r in recs:
-            vs = (mon_c11 if (pid == "C01" and r["family"] == "closures") else mon_relay if r["family"] == "relay" else mon_nestedlink if r["family"] == "nestedlink" else mon)(r)
+            vs = (mon_c11 if (pid == "C01" and r["family"] == "closures") else (lambda rr: [v for v in mon_c13(rr) if "closure" in v]) if (pid == "C11" and r["family"] == "hub") else mon_relay if r["family"] == "relay" else mon_nestedlink if r["family"] == "nestedlink" else mon)(r)
             if vs:
                 hits += 1
                 res.violation("sys-monitor:" + re.sub(r"\d+", "N", vs[0])[:50], "implementation violates %s: %s" % (pid, vs[0]),
